@@ -251,7 +251,7 @@ def run(c):
                            "analysed from memory with nothing saved at its path)" % r["name"], input=site,
                            expected={"as on the saved file": o["verdict"]}, observed={"in memory": o["detached"]})
                 # K tuple
-                if r["kind"] in ("list", "tail", "stmt", "single", "first", "second", "seq", "pair", "file", "imports") and ctor in lifted:
+                if r["kind"] in ("list", "tail", "stmt", "single", "first", "second", "seq", "pair", "file", "imports", "dollar") and ctor in lifted:
                     shape = {"one": 0, "exprstmt": 1, "stmt": 2, "list": 3}.get(o["shape"])
                     if shape is None or 2 in o["facts"]:
                         continue
